@@ -138,9 +138,9 @@ theorem delimiter_class_names_are_confined (d : BlockDef) (hd : d ∈ Gen.blockD
 /-- Throughout a document rendered in a non-zero safe mode the replacement and quote tables (hence every template
     and tag that `spans.render` can emit) are the ones the session had when the render started. -/
 theorem templates_unchanged_in_safe_mode (env : Env) (fuel : Nat) (src : Str) (s s' : Session) (html : Str)
-    (h : ((mkRec env fuel).document src).run s = .ok (html, s')) (hm : s.safeMode ≠ 0) :
+    (h : ((mkRec env fuel).document 0 src).run s = .ok (html, s')) (hm : s.safeMode ≠ 0) :
     s'.replDefs = s.replDefs ∧ s'.quoteDefs = s.quoteDefs ∧ s'.blockDefs = s.blockDefs := by
-  have st := (mkRec_spec env fuel).2 src s html s' h
+  have st := (mkRec_spec env fuel).2 0 src s html s' h
   obtain ⟨q, r, b, _⟩ := st.defs hm
   exact ⟨r, q, b⟩
 
